@@ -102,6 +102,7 @@ func Run(opts *Options) (int, error) {
 		chunkList = NewChunkList(cache, func(item *Item, data []byte) bool {
 			if len(header) < opts.HeaderLines {
 				header = append(header, byteString(data))
+				verifPoint("core.header", len(header))
 				eventBox.Set(EvtHeader, header)
 				return false
 			}
@@ -133,6 +134,7 @@ func Run(opts *Options) (int, error) {
 			transformed := nthTransformer(tokens, itemIndex)
 			if len(header) < opts.HeaderLines {
 				header = append(header, transformed)
+				verifPoint("core.header", len(header))
 				eventBox.Set(EvtHeader, header)
 				return false
 			}
